@@ -81,3 +81,66 @@ Print Assumptions C09_attacks_to_exact.
 Print Assumptions C09_has_check_exact.
 Print Assumptions C09_gives_check_exact.
 Print Assumptions C09_legal_pre_post_agree.
+
+(* ---- appended by tools/mkprops.py: Glue ---- *)
+(** Glue: the C09 theorems restated on the position model's own maintained bitboards, for every reachable legal position (GlueView.v) *)
+From Coq Require Import NArith ZArith List Bool Permutation.
+From FG Require Import Geom Rules FenSpec BitView AttacksImpl MoveEnc MovegenImpl PosImpl PosTabs PosProofsA PosProofsB PosProofsC PosProofs GlueView.
+Import ListNotations.
+
+Theorem C09_c09_ipos :
+  forall (t : tabs) (p : ipos),
+         Reach t p ->
+         legal_pos (abs p) = true ->
+         (forall s c : N,
+          s < 64 ->
+          c < 2 ->
+          is_attacked_impl (view_of_ipos p) s c = Some (Oracle.is_attacked_spec (abs p) s c) /\
+          attacks_to_impl (view_of_ipos p) s c = Some (Oracle.attacks_to_spec (abs p) s c)) /\
+         has_check_impl (view_of_ipos p) = Some (in_check (abs p)) /\
+         (forall m : mv,
+          In m (legal (abs p)) -> gives_check_impl (view_of_ipos p) (code m) = Some (gives_check (abs p) m)).
+Proof. exact c09_ipos. Qed.
+
+Theorem C09_is_attacked_ipos :
+  forall (t : tabs) (p : ipos) (s c : N),
+         Reach t p ->
+         legal_pos (abs p) = true ->
+         s < 64 -> c < 2 -> is_attacked_impl (view_of_ipos p) s c = Some (Oracle.is_attacked_spec (abs p) s c).
+Proof. exact is_attacked_ipos. Qed.
+
+Theorem C09_has_check_ipos :
+  forall (t : tabs) (p : ipos),
+         Reach t p -> legal_pos (abs p) = true -> has_check_impl (view_of_ipos p) = Some (in_check (abs p)).
+Proof. exact has_check_ipos. Qed.
+
+Theorem C09_is_legal_ipos :
+  forall (t : tabs) (p : ipos) (m : mv),
+         Reach t p ->
+         legal_pos (abs p) = true ->
+         room p ->
+         In m (pseudo (abs p)) ->
+         exists p' : ipos,
+           do_move t p (code m) = Some p' /\
+           Reach t p' /\
+           abs p' = make (abs p) m /\
+           is_legal_impl (view_of_ipos p) (view_of_ipos p') (code m) = Some (is_legal (abs p) m) /\
+           was_legal_impl (view_of_ipos p') (code m) = Some (is_legal (abs p) m).
+Proof. exact is_legal_ipos. Qed.
+
+Theorem C09_do_move_view :
+  forall (t : tabs) (p : ipos) (m : mv),
+         Reach t p ->
+         legal_pos (abs p) = true ->
+         room p ->
+         In m (pseudo (abs p)) ->
+         exists p' : ipos,
+           do_move t p (code m) = Some p' /\
+           Reach t p' /\
+           abs p' = make (abs p) m /\
+           view_of_ipos p' = set_vking (view_of_spec (make (abs p) m)) (i_ksq p') /\
+           sel (stm (abs p)) (i_ksq p') = king_sq (brd (make (abs p) m)) (stm (abs p)).
+Proof. exact do_move_view. Qed.
+
+Print Assumptions C09_c09_ipos.
+Print Assumptions C09_is_legal_ipos.
